@@ -154,6 +154,12 @@ func genCRSTree(r *rand.Rand, nRa int) *crsTree {
 			ct.tests = append(ct.tests, tp)
 		}
 	}
+	if chance(r, 0.5) {
+		// a file nobody includes on which `format --check` has two things to say: it is untidy, and it sets the
+		// ignore-case flag while using an upper-case letter in a character class (the sanity check of check mode)
+		ct.t["regex-assembly/include/zz-upper-class.ra"] = []byte(pick(r, []string{"##!+ i\n  ab[A-Z]c\n", "##!+ i\n##!> define up [A-F0-9]\n    x{{up}}\n\n\n", "##!+ is\n\t[a-zQ]+\n"}))
+		ct.incl = append(ct.incl, "zz-upper-class")
+	}
 	ct.t["crs-setup.conf.example"] = []byte("# OWASP CRS ver.4.0.0\nSecComponentSignature \"OWASP_CRS/4.0.0\"\n    setvar:tx.crs_setup_version=400\"\n")
 	ct.confs = append(ct.confs, "crs-setup.conf.example")
 	// decoys
